@@ -97,4 +97,27 @@ static void cfg_indent(FILE *fp, int indent)
 __CPROVER_requires(0 <= indent && indent <= CFGV_MAXDEPTH && fp == cfgv_fp && cfgv_blanks == 0 && !cfgv_badout)
 __CPROVER_assigns(cfgv_blanks, cfgv_badout)
 __CPROVER_ensures(cfgv_blanks == 2 * indent && !cfgv_badout);
+/* contract::cfg_getopt_leaf - the FIRST entry of the option array whose name equals the name asked for, NULL if none;
+ * equality is case-insensitive exactly when the context carries CFGF_NOCASE.  String equality is abstract: entry k's
+ * name is the k-th byte of the ghost block cfgv_names (so the carriers of strcmp / strcasecmp in harness/dfcc.c recover k
+ * from the pointer), cfgv_eq_cs[k] / cfgv_eq_ci[k] are the arbitrary verdicts of the two comparisons of entry k with the
+ * name asked for, and the carriers check that the second argument IS the name asked for.  Frame: empty. */
+extern int cfgv_first; extern char cfgv_names[CFGV_MAXOPTS]; extern _Bool cfgv_eq_cs[CFGV_MAXOPTS], cfgv_eq_ci[CFGV_MAXOPTS]; extern const char *cfgv_asked;
+#define CFGV_EQ(c, j) ((((c)->flags & CFGF_NOCASE) == CFGF_NOCASE) ? cfgv_eq_ci[j] : cfgv_eq_cs[j])
+#ifdef CFGV_TWIN
+#define CFGV_NAMED(a) (0 <= cfgv_term_k && cfgv_term_k <= 3 && __CPROVER_is_fresh(a, 4 * sizeof(cfg_opt_t)) && (a)[cfgv_term_k].name == NULL \
+	&& (cfgv_term_k <= 0 || (a)[0].name == &cfgv_names[0]) && (cfgv_term_k <= 1 || (a)[1].name == &cfgv_names[1]) && (cfgv_term_k <= 2 || (a)[2].name == &cfgv_names[2]))
+#define CFGV_FIRST(c) (0 <= cfgv_first && cfgv_first <= cfgv_term_k && (cfgv_first == cfgv_term_k || CFGV_EQ(c, cfgv_first)) \
+	&& (cfgv_first <= 0 || !CFGV_EQ(c, 0)) && (cfgv_first <= 1 || !CFGV_EQ(c, 1)) && (cfgv_first <= 2 || !CFGV_EQ(c, 2)))
+#else
+#define CFGV_NAMED(a) (0 <= cfgv_term_k && cfgv_term_k < CFGV_MAXOPTS && __CPROVER_is_fresh(a, CFGV_MAXOPTS * sizeof(cfg_opt_t)) && (a)[cfgv_term_k].name == NULL \
+	&& __CPROVER_forall { int k_; (0 <= k_ && k_ < cfgv_term_k) ==> (a)[k_].name == &cfgv_names[k_] })
+#define CFGV_FIRST(c) (0 <= cfgv_first && cfgv_first <= cfgv_term_k && (cfgv_first == cfgv_term_k || CFGV_EQ(c, cfgv_first)) \
+	&& __CPROVER_forall { int j_; (0 <= j_ && j_ < cfgv_first) ==> !CFGV_EQ(c, j_) })
+#endif
+static cfg_opt_t *cfg_getopt_leaf(cfg_t *cfg, const char *name)
+__CPROVER_requires(__CPROVER_is_fresh(cfg, sizeof(*cfg)) && name == cfgv_asked)
+__CPROVER_requires(cfg->opts == NULL || (CFGV_NAMED(cfg->opts) && CFGV_FIRST(cfg)))
+__CPROVER_assigns()
+__CPROVER_ensures(__CPROVER_return_value == ((cfg->opts && cfgv_first < cfgv_term_k) ? &cfg->opts[cfgv_first] : NULL));
 #endif
